@@ -314,7 +314,8 @@ fn expand(u: &RUnit, prefixes: &Option<Vec<Vec<String>>>, symbol_prefixes: &Opti
             symbols: sp[i].iter().flat_map(|pre| u.symbols.iter().map(move |n| format!("{pre}{n}"))).collect(),
             aliases: vec![],
             ratio: u.ratio * PREFIXES[i].1,
-            difference: u.difference,
+            // the offset is expressed in the unit itself: 1000 milli-degrees are 1 degree
+            difference: u.difference / PREFIXES[i].1,
             quantity: u.quantity,
             system: u.system,
             expand_si: false,
@@ -715,6 +716,32 @@ pub fn oracle(files: &[FileM], st: &mut Stats) -> Verdict {
             Err(p) => vbail!("c16.panic.finish", "finish panicked: {p}; files {}", serde_json::to_string(files).unwrap()),
         };
     }
+    // a caller may skip a rejected layer and go on with the same builder: whatever it then builds must be
+    // consistent too (a failed add must not leave half a unit behind)
+    if failed_early && parsed_all {
+        let mut b2 = ConverterBuilder::new();
+        let mut skipped = 0;
+        for f in files {
+            let uf: UnitsFile = toml::from_str(&to_toml(f)).expect("parsed above");
+            match guard(|| b2.add_units_file(uf).map(|_| ())) {
+                Ok(Ok(())) => {}
+                Ok(Err(_)) => skipped += 1,
+                Err(p) => vbail!("c16.panic.add_units_file", "add_units_file panicked after an earlier rejected layer: {p}; files {}", serde_json::to_string(files).unwrap()),
+            }
+        }
+        match guard(|| b2.finish()) {
+            Ok(Ok(c)) => {
+                st.class("rejected layer skipped, builder used again (result consistent)");
+                generic_consistency(&c).map_err(|mut v| {
+                    v.sig = format!("{}.after-rejected-layer", v.sig);
+                    v.msg = format!("after skipping {skipped} rejected layer(s) on the same builder: {}; files {}", v.msg, serde_json::to_string(files).unwrap());
+                    v
+                })?;
+            }
+            Ok(Err(_)) => {}
+            Err(p) => vbail!("c16.panic.finish", "finish panicked after a rejected layer: {p}; files {}", serde_json::to_string(files).unwrap()),
+        }
+    }
     let refr = reference(files);
     st.nontrivial(&serde_json::to_string(files).unwrap());
     match (&result, &refr) {
@@ -763,7 +790,7 @@ pub fn oracle(files: &[FileM], st: &mut Stats) -> Verdict {
                 serde_json::to_string(files).unwrap()
             );
             vensure!(
-                approx_eq(a.ratio, m.ratio, 1e-12, 0.0) && a.difference == m.difference && a.physical_quantity == pq(m.quantity) && sys == m.system,
+                approx_eq(a.ratio, m.ratio, 1e-12, 0.0) && approx_eq(a.difference, m.difference, 1e-12, 0.0) && a.physical_quantity == pq(m.quantity) && sys == m.system,
                 "c16.unit-definition",
                 "unit #{i} ({a}): ratio {} difference {} quantity {} system {:?}; model ratio {} difference {} quantity {} imperial {:?}; files {}",
                 a.ratio, a.difference, a.physical_quantity, a.system, m.ratio, m.difference, QUANTITIES[m.quantity], m.system,
